@@ -57,11 +57,20 @@ func (s *Scanner) locateForgetful(off int) int {
 	return col
 }
 
+// rewind drops the memo; All calls it once per byte.
+func (s *Scanner) rewind() { s.memoCol = 0 }
+
+// Reset drops the memo between inputs.
+func (s *Scanner) Reset(in []byte) { s.input, s.memo, s.memoCol = in, 0, 0 }
+
 // All calls the three once per byte.
 func (s *Scanner) All() int {
 	t := 0
 	for i := 0; i < len(s.input); i++ {
 		t += s.locate(i) + s.locateResumed(i) + s.locateForgetful(i)
+		if s.input[i] == ' ' {
+			s.rewind()
+		}
 	}
 	return t
 }
